@@ -223,6 +223,28 @@ namespace embedded_pairing::wkdibe {
         qualified.a1.copy(sk.a1);
     }
 
+    /*
+     * Attribute IDs may be any 256-bit integer and act modulo the group order
+     * everywhere else; reduce them before doing modular subtraction on them.
+     */
+    static void reduce_id(Scalar& reduced, const ID& id) {
+        reduced.copy(id);
+        while (Scalar::compare(reduced, group_order) != -1) {
+            reduced.subtract(reduced, group_order);
+        }
+    }
+
+    /* Computes (to - from) mod the group order. */
+    static void id_difference(Scalar& diff, const ID& to, const ID& from) {
+        Scalar to_reduced;
+        Scalar from_reduced;
+        reduce_id(to_reduced, to);
+        reduce_id(from_reduced, from);
+        if (diff.subtract(to_reduced, from_reduced)) {
+            diff.add(diff, group_order);
+        }
+    }
+
     void adjust_nondelegable(SecretKey& sk, const SecretKey& parent, const AttributeList& from, const AttributeList& to) {
         G1 temp;
         Scalar diff;
@@ -245,14 +267,12 @@ namespace embedded_pairing::wkdibe {
             if (j != from.length || k != to.length) {
                 if (sub_from && add_to) {
                     if (!ID::equal(from.attrs[j].id, to.attrs[k].id)) {
-                        if (diff.subtract(to.attrs[k].id, from.attrs[j].id)) {
-                            diff.add(diff, group_order);
-                        }
+                        id_difference(diff, to.attrs[k].id, from.attrs[j].id);
                         temp.multiply(parent.b[i].hexp, diff);
                         sk.a0.add(sk.a0, temp);
                     }
                 } else if (sub_from) {
-                    diff.subtract(group_order, from.attrs[j].id);
+                    id_difference(diff, ID::zero, from.attrs[j].id);
                     temp.multiply(parent.b[i].hexp, diff);
                     sk.a0.add(sk.a0, temp);
                 } else if (add_to) {
@@ -292,16 +312,14 @@ namespace embedded_pairing::wkdibe {
             const Attribute& to_attr = to.attrs[j];
             if (from_attr.idx == to_attr.idx) {
                 if (!ID::equal(from_attr.id, to_attr.id)) {
-                    if (diff.subtract(to_attr.id, from_attr.id)) {
-                        diff.add(diff, group_order);
-                    }
+                    id_difference(diff, to_attr.id, from_attr.id);
                     temp.multiply(params.h[to_attr.idx], diff);
                     precomputed.prodexp.add(precomputed.prodexp, temp);
                 }
                 i++;
                 j++;
             } else if (from_attr.idx < to_attr.idx) {
-                diff.subtract(group_order, from_attr.id);
+                id_difference(diff, ID::zero, from_attr.id);
                 temp.multiply(params.h[from_attr.idx], diff);
                 precomputed.prodexp.add(precomputed.prodexp, temp);
                 i++;
@@ -313,7 +331,7 @@ namespace embedded_pairing::wkdibe {
         }
         while (i != from.length) {
             const Attribute& from_attr = from.attrs[i];
-            diff.subtract(group_order, from_attr.id);
+            id_difference(diff, ID::zero, from_attr.id);
             temp.multiply(params.h[from_attr.idx], diff);
             precomputed.prodexp.add(precomputed.prodexp, temp);
             i++;
